@@ -8,6 +8,7 @@ import BVM.Model.Rt
 import BVM.Model.Api
 import BVM.Model.Tsdl
 import BVM.Model.Meta
+import Driver.Front
 open Lean BVM
 
 namespace Drv
@@ -338,6 +339,9 @@ structure DrvSt where
 
 def handle2 (st : DrvSt) (j : Json) : DrvSt × String :=
   if getStr j "op" == "cfg" then ({ cfg := cfgOf j, opts := optsOf j }, "ok") else
+  match handleFront j with
+  | some r => (st, r)
+  | none =>
   match handleLayout st.cfg st.opts j with
   | some r => (st, r)
   | none => let (c, r) := handle st.cfg j; ({ st with cfg := c }, r)
